@@ -298,6 +298,8 @@ def run_workers(prop, tier, nshards, hashseed, head=0, shards=None):
     env['PYTHONHASHSEED'] = str(hashseed)
     env['PYTHONPATH'] = VERIF + os.pathsep + REPO
     env['PYTHONDONTWRITEBYTECODE'] = '1'
+    for k in ('OMP_NUM_THREADS', 'OPENBLAS_NUM_THREADS', 'MKL_NUM_THREADS', 'NUMEXPR_NUM_THREADS'):
+        env[k] = '1'      # 16 single-threaded workers; numeric libraries must not spawn their own pools
     procs = []
     for sh in (shards if shards is not None else range(nshards)):
         of = os.path.join(outdir, '%s-%s-%d-%d-%d.json' % (prop, tier, sh, os.getpid(), head))
